@@ -178,3 +178,34 @@ Proof.
   split; [exact J3|]. split; [now apply inv_subseq|].
   pose proof (r_cnt g' J1). pose proof (r_w g' J1). lia.
 Qed.
+
+(* ---- Set at the granularity of its atomic operations: a compare-and-swap that fails against the READER strands
+   the messages behind an emptied slot (finding stuck-in-ring-at-close) ---- *)
+Definition gap_P : list (list msg) := [[[0]; [1]; [2]; [3]; [4]]]%Z.
+Definition gap_events : list mev :=
+  (* 0 and 1 are stored; the reader takes 0 *)       [MW 0; MW 0; MW 0;  MW 0; MW 0; MW 0;  MR] ++
+  (* 2 and 3 lap the reader, which jumps to 3 *)      [MW 0; MW 0; MW 0;  MW 0; MW 0; MW 0;  MR] ++
+  (* Set(4): fetch-add, load the stale bucket 2 *)    [MW 0; MW 0] ++
+  (* the reader discards the stale bucket *)          [MR] ++
+  (* the CAS fails; retry under the next number *)    [MW 0;  MW 0; MW 0; MW 0].
+
+Lemma drain_stuck k : forall g, slots g (rr g mod rn g) = None -> drain k g = g.
+Proof.
+  induction k as [|k IH]; intros g H; simpl; [reflexivity|].
+  unfold rtry. rewrite H. simpl. now apply IH.
+Qed.
+
+Lemma ring_gap_loss_refuted_l : exists n P es,
+  let m := mrrun (mrinit n P) es in
+  mrquiet (length P) m = true /\
+  forall k, let g := drain k (mbase m) in
+    length (rdeliv g) + sum (ralerts g) < length (rsent g) /\ rr g < rw g.
+Proof.
+  exists 2, gap_P, gap_events. cbv zeta.
+  remember (mrrun (mrinit 2 gap_P) gap_events) as m eqn:E.
+  assert (Q : mrquiet 1 m = true) by (subst m; vm_compute; reflexivity).
+  assert (S0 : slots (mbase m) (rr (mbase m) mod rn (mbase m)) = None) by (subst m; vm_compute; reflexivity).
+  assert (C : length (rdeliv (mbase m)) + sum (ralerts (mbase m)) < length (rsent (mbase m)) /\ rr (mbase m) < rw (mbase m))
+    by (subst m; vm_compute; lia).
+  split; [exact Q|]. intro k. rewrite (drain_stuck k _ S0). exact C.
+Qed.
